@@ -27,6 +27,7 @@ def run(ctx):
     ctx.explain("E-FREELIST.term: the dynamic terminal manager's gc writes the free list it built back to its state "
                 "(freed terminal slots are reusable by the retry).")
     efreelist.check_terminal_gc(ctx, F)
+    elin.check_forget(ctx, F)
     ctx.explain("E-DBG: no side effect (atomic read-modify-write, store, container mutation, assignment) is evaluated inside a "
                 "debug assertion; with debug assertions off it would not happen (225 debug-only blocks inspected).")
     n = edbg.run(ctx, F)
